@@ -219,6 +219,12 @@ def check(ctx):
                 ctx.violation('C15.R3', BER, node, Model.qual(g),
                               '%s is converted to a number on a path that never compared the number of octets present (a Python slice near the end of the data is silently shorter): '
                               'a prefix that ends inside the length octets yields a wrong length instead of "not yet known"' % sl, stmt='unchecked ' + sl)
+    dl_ = model.func(BER, 'decode_length')
+    n_ok_, n_und_, bad_, und_ = excmap.evaluate_decode_length(dl_)
+    ctx.instance('C15.R3', 'decode_length on short, minimal and non-minimal long forms and all their prefixes: %d cases evaluated, %d undecided' % (n_ok_, n_und_),
+                 'VIOLATION' if bad_ else ('ok' if n_ok_ else 'undecided'), und_ or '', nontrivial=n_ok_ > 0, node=dl_, file=BER)
+    if bad_:
+        ctx.violation('C15.R3', BER, dl_, Model.qual(dl_), bad_ + ': the length probe reports a wrong number (or "not yet known" too late) for this prefix', stmt='decode_length evaluation')
     # skip_tag: a tag that ends exactly at the end of data is "not yet known": every returning path has established  returned offset < len(data)
     sps = sem.paths(skt, positional=True)
     ok = sps is not None
@@ -300,6 +306,44 @@ def check(ctx):
     ctx.instance('C15.R4', 'skip_tag long form iff byte & 0x1f == 0x1f', 'ok' if ok else 'VIOLATION', node=st, file=BER)
     if not ok:
         ctx.violation('C15.R4', BER, st, Model.qual(st), 'high-tag-number test changed', stmt='byte & 0x1f == 0x1f')
+
+    # the identifier octets, by bounded evaluation (sa/evalexpr.py): for every class / form and tag numbers around the group boundaries, skip_tag applied to the
+    # octets X.690 8.1.2 prescribes, followed by a length octet, stops exactly behind them -- and reports "out of data" when nothing follows
+    from .. import evalexpr
+
+    def ref_tag(number, flags):
+        if number < 31:
+            return bytes([flags | number])
+        groups = []
+        while number > 0:
+            groups.append(number & 0x7f)
+            number >>= 7
+        groups.reverse()
+        return bytes([flags | 0x1f] + [0x80 | g_ for g_ in groups[:-1]] + [groups[-1]])
+    sp = flow.param_names(st)
+    n_ok = n_und = 0
+    bad4 = und4 = None
+    for flags in (0x00, 0x20, 0x40, 0x60, 0x80, 0xa0, 0xc0, 0xe0):
+        for number in (0, 1, 30, 31, 32, 33, 100, 127, 128, 1000, 16383, 16384, 2 ** 21 + 1):
+            tag = ref_tag(number, flags)
+            for tail, want in ((b'\x05\x01\x02', len(tag)), (b'', 'raise')):
+                try:
+                    got, _e = evalexpr.run_function(st, {sp[0]: tag + tail, sp[1]: 0})
+                except evalexpr.Raised:
+                    got = 'raise'
+                except (evalexpr.Unsupported, KeyError, TypeError) as e:
+                    n_und += 1
+                    und4 = und4 or 'skip_tag(%s): %s' % ((tag + tail).hex(), e)
+                    continue
+                if got != want:
+                    bad4 = bad4 or 'skip_tag(%s, 0) gives %s; the identifier octets of tag number %d (class/form bits 0x%02x) are %s, so it must %s' % (
+                        (tag + tail).hex(), got, number, flags, tag.hex(), 'return %d' % want if want != 'raise' else 'report that the data ran out')
+                else:
+                    n_ok += 1
+    ctx.instance('C15.R4', 'skip_tag on the identifier octets of X.690 8.1.2: %d cases evaluated, %d undecided' % (n_ok, n_und), 'VIOLATION' if bad4 else ('ok' if n_ok else 'undecided'),
+                 und4 or '', nontrivial=n_ok > 0, node=st, file=BER)
+    if bad4:
+        ctx.violation('C15.R4', BER, st, Model.qual(st), bad4 + ': the length probe reads the length from the wrong octet and disagrees with the decoder on where the message ends', stmt='skip_tag octets')
 
     # ---- R5
     for rel in (BER,):
@@ -491,3 +535,13 @@ MUTANTS.append(dict(name='REAL contents decoded in place from the whole buffer w
 """, new="""        end_offset = offset + length
         decoded = decode_real_binary(data[offset], data) if length and data[offset] & 0x80 else decode_real(data[offset:end_offset])
 """, expect='C15.R6'))
+
+MUTANTS.append(dict(name='skip_tag tests bit 8 of the leading identifier octet as a continuation bit', file=BER,
+                    old="""            while data[offset] & 0x80:
+                offset += 1
+
+            offset += 1
+""", new="""            while byte & 0x80:
+                byte = data[offset]
+                offset += 1
+""", expect='C15.R4'))
